@@ -616,7 +616,11 @@ class UncertainArray(np.ndarray):
         return UncertainArray(out.reshape(shape))
 
     def _arctan2(self, *inputs):
-        return self._atan2(inputs[1])
+        # `self` may be either input and the inputs may be broadcast iterators
+        out, iterator, shape = self._create_empty(inputs)
+        for i, (a, b) in enumerate(iterator):
+            out[i] = atan2(a, b)
+        return UncertainArray(out.reshape(shape))
 
     def _atan2(self, *inputs):
         out, iterator, shape = self._create_empty((self, inputs[0]))
